@@ -255,16 +255,16 @@ func (r *Run) Finish() int {
 	}
 
 	cov := map[string]interface{}{
-		"evaluations":         r.evals,
-		"distinct_nontrivial": len(r.distinct),
-		"rule":                r.Rule,
-		"samples":             r.samples,
-		"counters":            r.counters,
-		"gates":               gatesOut,
-		"known_findings_reobserved": knownList,
+		"evaluations":                   r.evals,
+		"distinct_nontrivial":           len(r.distinct),
+		"rule":                          r.Rule,
+		"samples":                       r.samples,
+		"counters":                      r.counters,
+		"gates":                         gatesOut,
+		"known_findings_reobserved":     knownList,
 		"unlisted_violation_signatures": unlistedSigs,
-		"inconclusive":        r.inconcl,
-		"diagnostics":         r.diag,
+		"inconclusive":                  r.inconcl,
+		"diagnostics":                   r.diag,
 	}
 	if r.Exhaustive {
 		cov["exhaustive"] = true
